@@ -1,5 +1,7 @@
-/- Line-protocol driver of the `feeflow` engine (C09, C10): parses the op lines (including the `@k=v`
-   answers recorded from the real run) and prints the joint model's observation. Import-free. -/
+/- Line-protocol driver of the `feeflow` engine (C07, C09, C10): parses the op lines (including the `@k=v`
+   answers recorded from the real run and the trailing stray-coin tokens `+<asset>:<amount>` / `+j:<amount>`)
+   and prints the joint model's observation. Import-free.  Init tokens it does not know (`dn=<denom shapes>`:
+   the model does not look at names) are ignored. -/
 import Driver.Util
 import WW.Model.Feeflow
 namespace Driver
@@ -81,7 +83,10 @@ def observe (cfg : Feeflow.Cfg) (s : Feeflow.St) : String :=
   " epa=" ++ joinOr ";" epa ++
   " dbala=" ++ joinOr "," (assets.map fun a => toString (s.d.bal a)) ++
   " daoa=" ++ joinOr "," (assets.map fun a => toString (s.daoBal a)) ++
-  " uba=" ++ joinOr "," (users.map fun u => ".".intercalate (assets.map fun a => toString (s.ub u a)))
+  " uba=" ++ joinOr "," (users.map fun u => ".".intercalate (assets.map fun a => toString (s.ub u a))) ++
+  -- the unrelated denom (index `n`) on collector / distributor / router / lair; the lair's balance per asset
+  " jb=" ++ ",".intercalate [toString (s.c.bal n), toString (s.d.bal n), toString (s.xb 0 n), toString (s.xb 1 n)] ++
+  " lb=" ++ joinOr "," (assets.map fun a => toString (s.xb 1 a))
 
 def init (ws : List String) : Option FeeflowState :=
   let m := kvs ws
@@ -101,7 +106,8 @@ def init (ws : List String) : Option FeeflowState :=
         st := { d := Distributor.St.init grace dist,
                 c := { bal := fun _ => 0, rate := 0, active := false, daoSet := false, dao := 0, trh := [],
                        pools := pools, vaults := vaults, routes := fun _ => [] },
-                view := fun _ => none, ub := fun _ _ => 0, daoBal := fun _ => 0, rts := fun _ _ => [] } }
+                view := fun _ => none, ub := fun _ _ => 0, daoBal := fun _ => 0, rts := fun _ _ => [],
+                xb := fun _ _ => 0 } }
     | _, _ => none
   | _, _, _, _, _ => none
 
@@ -233,6 +239,11 @@ def parseOp (cfg : Feeflow.Cfg) (now sender : Nat) (op : String) (args : List St
 /-- the recorded answers must cover exactly what the model asks of them -/
 def recordedCovers (cfg : Feeflow.Cfg) (s : Feeflow.St) (op : Feeflow.Op) (rcd : List (String × String)) : Bool :=
   match op with
+  | .coins payer a x op' =>
+    -- the operation runs on the state after the bank's transfer
+    match Feeflow.pay cfg s payer a x (Feeflow.target op') with
+    | .ok s1 => recordedCovers cfg s1 op' rcd
+    | _ => true
   | .claim u _ =>
     match parseShares (lookupStr rcd "@sh" "?") with
     | some sh => (Distributor.claimable s.d u (s.view u)).all fun id => sh.any fun e => e.1 == id
@@ -249,14 +260,45 @@ def recordedCovers (cfg : Feeflow.Cfg) (s : Feeflow.St) (op : Feeflow.Op) (rcd :
     | _, _ => true
   | _ => true
 
+/-- a stray-coin token `+<asset idx>:<amount>` (an asset of the world) | `+j:<amount>` (the unrelated denom =
+    index `nassets`); the amount is positive -/
+def stray? (cfg : Feeflow.Cfg) (w : String) : Option (Nat × Nat) :=
+  match (w.drop 1).toString.splitOn ":" with
+  | [a, x] =>
+    match (if a == "j" then some cfg.c.nassets else a.toNat?.bind fun i => if i < cfg.c.nassets then some i else none), x.toNat? with
+    | some a, some x => if x == 0 then none else some (a, x)
+    | _, _ => none
+  | _ => none
+
+/-- wrap a parsed op into the coins attached to its message.  Only the messages the engine attaches coins to
+    (`target ≠ nobody`); the router only ever gets the unrelated denom (it would spend an asset of the world
+    in its next swap of that asset: outside the model); the lair's `Bond` refuses extra coins whatever the
+    recorded outcome says (`validate_funds`: exactly one coin) -/
+def withCoins (cfg : Feeflow.Cfg) (sender : Nat) (opName : String) (mop : Feeflow.Op) (cs : List (Nat × Nat)) : Option Feeflow.Op :=
+  if cs.isEmpty then some mop
+  else
+    let t := Feeflow.target mop
+    if t == Feeflow.Target.nobody then none
+    else if t == Feeflow.Target.router && cs.any (fun c => c.1 != cfg.c.nassets) then none
+    else
+      let mop := match mop with
+        | .bond u _ v => if opName == "bond" then Feeflow.Op.bond u 1 v else mop
+        | _ => mop
+      some (cs.foldr (fun c op => Feeflow.Op.coins sender c.1 c.2 op) mop)
+
 def opLine (fs : FeeflowState) (ws : List String) : FeeflowState × String :=
   match ws with
   | op :: _h :: t :: sender :: rest =>
-    let args := rest.filter fun w => !w.startsWith "@"
+    let args0 := rest.filter fun w => !w.startsWith "@"
+    let args := args0.filter fun w => !w.startsWith "+"
+    let coinToks := args0.filter fun w => w.startsWith "+"
     let rcd := kvs (rest.filter fun w => w.startsWith "@")
     match t.toNat?, addr? sender with
     | some now, some sender =>
-      match parseOp fs.cfg now sender op args rcd with
+      match (parseOp fs.cfg now sender op args rcd).bind fun mop =>
+          (coinToks.mapM (stray? fs.cfg)).bind fun cs =>
+            -- the coin tokens are trailing tokens
+            if args0.drop args.length == coinToks then withCoins fs.cfg sender op mop cs else none with
       | some mop =>
         if !recordedCovers fs.cfg fs.st mop rcd then (fs, "bad-op")
         else
